@@ -113,6 +113,7 @@ type Case struct {
 	G            *Graph   `json:"g"`
 	Par          string   `json:"par"`                     // invoke | stream | collect | transform
 	CancelBefore bool     `json:"cancel_before,omitempty"` // context already cancelled at the call
+	Deadline     bool     `json:"deadline,omitempty"`      // ... because its deadline has passed (ctx.Err() is context.DeadlineExceeded, not context.Canceled)
 	InErr        *ErrSpec `json:"in_err,omitempty"`        // collect/transform: the input stream carries this error item
 	Fwd          *FwdSpec `json:"fwd,omitempty"`           // a forwarder case (fwd.go): G / Par unused
 }
@@ -656,11 +657,23 @@ var rePath = regexp.MustCompile(`node path: \[([^\]]*)\]`)
 var reBoom = regexp.MustCompile(`^boom:(\d+)$`)
 var reIndex = regexp.MustCompile(`^runtime error: index out of range \[(\d+)\] with length 0$`)
 
-func project(err error) *Proj {
+// ctxSentinel: the error of the run's context once it is done — what "context cancellation is
+// matchable" is asked for (errors.Is slot 3).
+func ctxSentinel(c *Case) error {
+	if c.CancelBefore && c.Deadline {
+		return context.DeadlineExceeded
+	}
+	return context.Canceled
+}
+
+func project(err error, ctxDone error) *Proj {
 	p := &Proj{Panic: -1}
 	info := compose.VerifC13Info(err)
 	p.Found, p.Outermost, p.Typ, p.NodePath, p.StreamPath = info.Found, info.Outermost, info.Typ, info.NodePath, info.StreamPath
-	for _, t := range isTargets {
+	for i, t := range isTargets {
+		if i == 3 {
+			t = ctxDone
+		}
 		p.Is = append(p.Is, errors.Is(err, t))
 	}
 	var c0 *custom0
@@ -689,7 +702,7 @@ func project(err error) *Proj {
 	}
 	p.MsgPanic = strings.Contains(msg, "panic")
 	p.MsgLimit = strings.Contains(msg, "exceeds max steps")
-	p.MsgCancel = strings.Contains(msg, "context canceled")
+	p.MsgCancel = strings.Contains(msg, "context canceled") || strings.Contains(msg, "context deadline exceeded")
 	if len(msg) > 160 {
 		msg = msg[:160] + "..."
 	}
@@ -809,7 +822,13 @@ func runOnce(c *Case) Obs {
 		return Obs{Class: "build", Info: err.Error()}
 	}
 	if c.CancelBefore {
-		cancel()
+		if c.Deadline {
+			var cancelD context.CancelFunc
+			ctx, cancelD = context.WithDeadline(ctx, time.Now().Add(-time.Second))
+			defer cancelD()
+		} else {
+			cancel()
+		}
 	}
 	// a panic on a goroutine the harness does not own kills the process: leave a marker naming the case
 	if fatalMarker != "" {
@@ -862,9 +881,9 @@ func runOnce(c *Case) Obs {
 	case o.pan != nil:
 		return Obs{Class: "panic", Info: fmt.Sprint(o.pan), Log: e.snapshot()}
 	case o.callErr != nil:
-		return Obs{Class: "err", P: project(o.callErr), Log: e.snapshot()}
+		return Obs{Class: "err", P: project(o.callErr, ctxSentinel(c)), Log: e.snapshot()}
 	case o.itemErr != nil:
-		return Obs{Class: "item", P: project(o.itemErr), Log: e.snapshot()}
+		return Obs{Class: "item", P: project(o.itemErr, ctxSentinel(c)), Log: e.snapshot()}
 	}
 	return Obs{Class: "ok", Log: e.snapshot()}
 }
@@ -904,6 +923,9 @@ func summary(c *Case) string {
 	s := c.Par + "; faults: " + strings.Join(fs, ", ")
 	if c.CancelBefore {
 		s += "; context cancelled before the call"
+		if c.Deadline {
+			s += " (deadline passed)"
+		}
 	}
 	if c.InErr != nil {
 		s += "; error item on the input stream"
